@@ -465,6 +465,152 @@ theorem collapse_groups_total (gs : List (Nat × List Nat)) (xs ws : List K) (hl
     rw [h1.1, h1.2.1] at this
     exact this
 
+/-! ### `impose_collapse`: what every group looks like afterwards -/
+
+theorem getD_set_self (l : List K) (k : Nat) (a : K) (h : k < l.length) : (l.set k a).getD k 0 = a := by
+  simp [List.getD_eq_getElem?_getD, h]
+
+/-- the collapse loop of one group `i -> J` (members in range, different from the key, listed once): the running
+weight collects the members' weights, exactly the members are zeroed and moved onto position `i` -/
+theorem collapse_fold_spec (i n : Nat) (J : List Nat) (s : CState K)
+    (hJ : ∀ k ∈ J, k < n ∧ k ≠ i) (hnd : J.Nodup) (hlen : s.ws.length = n) (hx : s.xs.length = n) :
+    (J.foldl (collapseStep i) s).v = s.v + (J.map (s.ws.getD · 0)).sum ∧
+    (∀ t, (J.foldl (collapseStep i) s).ws.getD t 0 = if t ∈ J then 0 else s.ws.getD t 0) ∧
+    (∀ t, (J.foldl (collapseStep i) s).xs.getD t 0 = if t ∈ J then s.xs.getD i 0 else s.xs.getD t 0) := by
+  induction J generalizing s with
+  | nil => simp
+  | cons k J ih =>
+    have hk := hJ k (by simp)
+    have hnd' := (List.nodup_cons.mp hnd)
+    have ih' := ih (collapseStep i s k) (fun k' hk' => hJ k' (by simp [hk'])) hnd'.2
+      (by simp [collapseStep, hlen]) (by simp [collapseStep, hx])
+    simp only [List.foldl_cons]
+    refine ⟨?_, ?_, ?_⟩
+    · rw [ih'.1]
+      simp only [collapseStep, List.map_cons, List.sum_cons]
+      have e : J.map (fun t => (s.ws.set k 0).getD t 0) = J.map (fun t => s.ws.getD t 0) := by
+        apply List.map_congr_left; intro t ht
+        exact getD_set_ne _ _ _ _ (fun h => hnd'.1 (h ▸ ht))
+      rw [e]; ring
+    · intro t
+      rw [ih'.2.1 t]
+      by_cases htJ : t ∈ J
+      · simp [htJ]
+      · by_cases htk : t = k
+        · subst htk
+          simp only [htJ, if_false, List.mem_cons, true_or, if_true, collapseStep]
+          exact getD_set_self _ _ _ (by omega)
+        · simp only [htJ, if_false, List.mem_cons, htk, false_or, collapseStep]
+          exact getD_set_ne _ _ _ _ (fun h => htk h.symm)
+    · intro t
+      rw [ih'.2.2 t]
+      have hi : (collapseStep i s k).xs.getD i 0 = s.xs.getD i 0 := by
+        simp only [collapseStep]
+        exact getD_set_ne _ _ _ _ hk.2
+      by_cases htJ : t ∈ J
+      · rw [if_pos htJ, if_pos (List.mem_cons_of_mem _ htJ), hi]
+      · by_cases htk : t = k
+        · subst htk
+          simp only [htJ, if_false, List.mem_cons, true_or, if_true, collapseStep]
+          exact getD_set_self _ _ _ (by omega)
+        · simp only [htJ, if_false, List.mem_cons, htk, false_or, collapseStep]
+          exact getD_set_ne _ _ _ _ (fun h => htk h.symm)
+
+theorem collapseGroup_spec (xs ws : List K) (g : Nat × List Nat) (hl : xs.length = ws.length)
+    (hok : GroupOK ws.length g) (hnd : g.2.Nodup) :
+    (collapseGroup (xs, ws) g).2.getD g.1 0 = ws.getD g.1 0 + (g.2.map (ws.getD · 0)).sum ∧
+    (∀ k ∈ g.2, (collapseGroup (xs, ws) g).2.getD k 0 = 0 ∧ (collapseGroup (xs, ws) g).1.getD k 0 = xs.getD g.1 0) ∧
+    (∀ t, t ≠ g.1 → t ∉ g.2 → (collapseGroup (xs, ws) g).2.getD t 0 = ws.getD t 0) ∧
+    (∀ t, t ∉ g.2 → (collapseGroup (xs, ws) g).1.getD t 0 = xs.getD t 0) := by
+  have h := collapse_fold_spec g.1 ws.length g.2 { v := ws.getD g.1 0, ws := ws, xs := xs } hok.2 hnd rfl hl
+  have hinv := collapse_fold_inv g.1 ws.length ws.sum g.2 { v := ws.getD g.1 0, ws := ws, xs := xs } hok.2 rfl hl
+    (by simp)
+  unfold collapseGroup
+  simp only
+  refine ⟨?_, ?_, ?_, ?_⟩
+  · rw [getD_set_self _ _ _ (by rw [hinv.1]; exact hok.1), h.1]
+  · intro k hk
+    refine ⟨?_, ?_⟩
+    · rw [getD_set_ne _ _ _ _ (fun e => (hok.2 k hk).2 e.symm), h.2.1 k]; simp [hk]
+    · rw [h.2.2 k]; simp [hk]
+  · intro t ht htJ
+    rw [getD_set_ne _ _ _ _ (fun e => ht e.symm), h.2.1 t]; simp [htJ]
+  · intro t htJ
+    rw [h.2.2 t]; simp [htJ]
+
+/-- the nodes of a group -/
+def gnodes (g : Nat × List Nat) : List Nat := g.1 :: g.2
+
+theorem collapse_groups_untouched (gs : List (Nat × List Nat)) (xs ws : List K) (hl : xs.length = ws.length)
+    (hok : ∀ g ∈ gs, GroupOK ws.length g) (hnd : ∀ g ∈ gs, g.2.Nodup) (t : Nat)
+    (ht : ∀ g ∈ gs, t ∉ gnodes g) :
+    (gs.foldl collapseGroup (xs, ws)).2.getD t 0 = ws.getD t 0 ∧
+    (gs.foldl collapseGroup (xs, ws)).1.getD t 0 = xs.getD t 0 := by
+  induction gs generalizing xs ws with
+  | nil => exact ⟨rfl, rfl⟩
+  | cons g gs ih =>
+    simp only [List.foldl_cons]
+    have hg := ht g (by simp)
+    simp only [gnodes, List.mem_cons, not_or] at hg
+    have h1 := collapseGroup_total xs ws g hl (hok g (by simp))
+    have h2 := collapseGroup_spec xs ws g hl (hok g (by simp)) (hnd g (by simp))
+    have := ih (collapseGroup (xs, ws) g).1 (collapseGroup (xs, ws) g).2 (by rw [h1.2.1, h1.2.2])
+      (by intro g' hg'; rw [h1.2.1]; exact hok g' (by simp [hg'])) (fun g' hg' => hnd g' (by simp [hg']))
+      (fun g' hg' => ht g' (by simp [hg']))
+    rw [this.1, this.2, h2.2.2.1 t hg.1 hg.2, h2.2.2.2 t hg.2]
+    exact ⟨rfl, rfl⟩
+
+/-- all groups of a collapse, pairwise without common nodes: every group's key carries the group's weight, every
+other member is exactly zero and sits on the key's (pre-shift) position; nodes outside all groups are untouched -/
+theorem collapse_groups_spec (gs : List (Nat × List Nat)) (xs ws : List K) (hl : xs.length = ws.length)
+    (hok : ∀ g ∈ gs, GroupOK ws.length g) (hnd : ∀ g ∈ gs, g.2.Nodup)
+    (hdis : gs.Pairwise fun a b => ∀ t ∈ gnodes a, t ∉ gnodes b) :
+    ∀ g ∈ gs,
+      (gs.foldl collapseGroup (xs, ws)).2.getD g.1 0 = ws.getD g.1 0 + (g.2.map (ws.getD · 0)).sum ∧
+      (gs.foldl collapseGroup (xs, ws)).1.getD g.1 0 = xs.getD g.1 0 ∧
+      ∀ k ∈ g.2, (gs.foldl collapseGroup (xs, ws)).2.getD k 0 = 0 ∧
+        (gs.foldl collapseGroup (xs, ws)).1.getD k 0 = xs.getD g.1 0 := by
+  induction gs generalizing xs ws with
+  | nil => intro g hg; simp at hg
+  | cons g0 gs ih =>
+    intro g hg
+    simp only [List.foldl_cons]
+    have h1 := collapseGroup_total xs ws g0 hl (hok g0 (by simp))
+    have h2 := collapseGroup_spec xs ws g0 hl (hok g0 (by simp)) (hnd g0 (by simp))
+    have hd := List.pairwise_cons.mp hdis
+    have hok' : ∀ g' ∈ gs, GroupOK (collapseGroup (xs, ws) g0).2.length g' := by
+      intro g' hg'; rw [h1.2.1]; exact hok g' (by simp [hg'])
+    have hl' : (collapseGroup (xs, ws) g0).1.length = (collapseGroup (xs, ws) g0).2.length := by rw [h1.2.1, h1.2.2]
+    rcases List.mem_cons.mp hg with rfl | hg'
+    · -- the first group: later groups do not touch its nodes
+      have hun : ∀ t ∈ gnodes g, ∀ g' ∈ gs, t ∉ gnodes g' := fun t ht g' hg' => hd.1 g' hg' t ht
+      have un := fun t ht => collapse_groups_untouched gs (collapseGroup (xs, ws) g).1 (collapseGroup (xs, ws) g).2 hl' hok'
+        (fun g' hg' => hnd g' (by simp [hg'])) t (hun t ht)
+      refine ⟨?_, ?_, ?_⟩
+      · rw [(un g.1 (by simp [gnodes])).1, h2.1]
+      · rw [(un g.1 (by simp [gnodes])).2, h2.2.2.2 g.1 (fun h => ((hok g (by simp)).2 g.1 h).2 rfl)]
+      · intro k hk
+        rw [(un k (by simp [gnodes, hk])).1, (un k (by simp [gnodes, hk])).2]
+        exact h2.2.1 k hk
+    · -- a later group: the first group did not touch its nodes
+      have hng : ∀ t ∈ gnodes g, t ∉ gnodes g0 := fun t ht h0 => hd.1 g hg' t h0 ht
+      have key := ih (collapseGroup (xs, ws) g0).1 (collapseGroup (xs, ws) g0).2 hl' hok'
+        (fun g' hg' => hnd g' (by simp [hg'])) hd.2 g hg'
+      have same : ∀ t ∈ gnodes g, (collapseGroup (xs, ws) g0).2.getD t 0 = ws.getD t 0 ∧
+          (collapseGroup (xs, ws) g0).1.getD t 0 = xs.getD t 0 := by
+        intro t ht
+        have := hng t ht
+        simp only [gnodes, List.mem_cons, not_or] at this
+        exact ⟨h2.2.2.1 t this.1 this.2, h2.2.2.2 t this.2⟩
+      have e : g.2.map (fun t => (collapseGroup (xs, ws) g0).2.getD t 0) = g.2.map (fun t => ws.getD t 0) := by
+        apply List.map_congr_left; intro t ht
+        exact (same t (by simp [gnodes, ht])).1
+      refine ⟨?_, ?_, ?_⟩
+      · rw [key.1, e, (same g.1 (by simp [gnodes])).1]
+      · rw [key.2.1, (same g.1 (by simp [gnodes])).2]
+      · intro k hk
+        rw [(key.2.2 k hk).1, (key.2.2 k hk).2, (same g.1 (by simp [gnodes])).2]
+        exact ⟨rfl, rfl⟩
 /-! ### extrema, support, heavy points -/
 
 /-- `max(l)` for a non-empty list is a greatest element -/
